@@ -84,9 +84,46 @@ def replay(rec):
         res.append(('C17.c:rows:bndf',) + bag_compare(by.get('bndf', []), [rec['bndf']], absval=True))
         extra = [k for k in by if k not in ('path', 'bnd0', 'bndf', None)]
         res.append(('C17.c:rows:extra', 'ok' if not extra else 'mismatch', 'unexplained row groups %s' % extra))
+        if r >= 2:
+            res.extend(grouped(rec, nodes, grid_fun))
         return {'results': res, 'error': None}
     except Exception as e:
         return {'results': res + [('C17.c', 'error', '%s: %s' % (type(e).__name__, (str(e).splitlines() or [''])[-1][:200]))], 'error': traceback.format_exc()}
+
+
+def grouped(rec, nodes, grid_fun):
+    """group_refine=LseGroup(...): the grouped rows are a conservative surrogate.  With the values of x1+x2 at every
+    refined point predicted by TLC, two designed bounds decide both directions: (i) a lower bound between the smallest
+    and the largest point value is violated at some point, so the grouped rows must be infeasible at this probe;
+    (ii) bounds one unit outside the range (ten times the margin) must be accepted."""
+    from rockit import LseGroup
+    sc = rec['sc']; L = sc['L']; N = sc['N']; r = sc['refine']
+    vals = [9.0 - fl(s_) for s_ in rec['path']]          # x1 + x2 at the refined points
+    lo, hi = min(vals), max(vals)
+    out = []
+    if hi - lo < 0.5: return out
+    for name, lb, ub, expect in (('violated_lower', (lo + hi) / 2, hi + 1, False), ('violated_upper', lo - 1, (lo + hi) / 2, False), ('satisfied', lo - 1, hi + 1, True)):
+        ocp = Ocp(t0=fl(sc['t0']), T=fl(sc['T']))
+        xs = [ocp.state() for _ in range(L - 1)]
+        u = ocp.control(); chain = xs + [u]
+        for i in range(L - 1): ocp.set_der(xs[i], chain[i + 1])
+        ocp.subject_to(lb <= (chain[0] + chain[1] <= ub), refine=r, group_refine=LseGroup(margin_abs=0.1))
+        ocp.add_objective(ocp.at_tf(chain[0]) ** 2)
+        ocp.solver('ipopt')
+        ocp.method(SplineMethod(N=N, grid=FunctionGrid(grid_fun)))
+        quiet(lambda: ocp._transcribed)
+        opti, vx, vp = _inputs(ocp)
+        nx = vx.numel(); pv = np.zeros(vp.numel())
+        rng = np.random.RandomState(5)
+        pts = [(rng.uniform(0.5, 1.5, nx), pv), (rng.uniform(-1.5, -0.5, nx), pv)]
+        loc = locate(quiet(ocp.sample, chain[0], grid='gist')[1], opti, pts)
+        xv = np.zeros(nx)
+        for l, cval in zip(loc, rec['coef']): xv[l[0]] = fl(cval) / l[1]
+        g, lbg, ubg = [np.array(ca.Function('g', [vx, vp], [e])(xv, pv)).reshape(-1) for e in (opti.g, opti.lbg, opti.ubg)]
+        feas = bool(np.all(g >= lbg - 1e-9) and np.all(g <= ubg + 1e-9))
+        out.append(('C17.c:grouped:' + name, 'ok' if feas == expect else 'mismatch',
+                    'bounds [%g, %g], point values in [%g, %g]: grouped rows %s' % (lb, ub, lo, hi, 'hold' if feas else 'violated')))
+    return out
 
 
 def optima():
